@@ -378,8 +378,9 @@ Qed.
 (* ------------------------------------------------------------------ C06: Succeeded is exclusive and needs an objective value *)
 
 Definition good_conds (cs : conds) (o : obs) : Prop :=
-  has_cond cs TSucceeded = true ->
-  has_cond cs TFailed = false /\ has_cond cs TMetricsUnavailable = false /\ has_cond cs TEarlyStopped = false /\ obs_available o = true.
+  (has_cond cs TSucceeded = true ->
+   has_cond cs TFailed = false /\ has_cond cs TMetricsUnavailable = false /\ has_cond cs TEarlyStopped = false /\ obs_available o = true)
+  /\ (has_cond cs TMetricsUnavailable = true -> has_cond cs TRunning = false).
 
 Definition tgood (t : trial) : Prop := good_conds (t_conds t) (t_obs t).
 
@@ -391,20 +392,21 @@ Lemma utc_good cf now t o js dbw cs ct :
   update_trial_condition cf now t o js = (dbw, cs, ct) ->
   t_completed t = false \/ t_is t TEarlyStopped = true -> tgood t -> good_conds cs o.
 Proof.
-  intros U G T.
+  intros U G [T1 T2].
   assert (S0 : has_cond (t_conds t) TSucceeded = false).
   { destruct G as [G|G]; [apply not_completed_parts in G; tauto|].
-    destruct (has_cond (t_conds t) TSucceeded) eqn:S; [|reflexivity]. destruct (T S) as (_&_&E&_). unfold t_is in G. congruence. }
+    destruct (has_cond (t_conds t) TSucceeded) eqn:S; [|reflexivity]. destruct (T1 eq_refl) as (_&_&E&_). unfold t_is in G. congruence. }
   unfold update_trial_condition in U.
   destruct js; repeat match type of U with context [if ?c then _ else _] => destruct c eqn:? end; inversion U; subst;
     unfold good_conds, tmark_off_and, mark; rewrite ?has_set, ?has_turn_off; cbn [Nat.eqb TSucceeded TFailed TMetricsUnavailable TEarlyStopped TRunning];
-    try (intro K; congruence).
-  (* the branch that marks Succeeded *)
-  intros _.
-  repeat match goal with E : _ && _ = true |- _ => apply andb_true_iff in E as [? ?] end.
-  repeat match goal with E : negb _ = true |- _ => apply negb_true_iff in E end.
-  destruct G as [G|G]; [|unfold t_is in G; congruence].
-  apply not_completed_parts in G. unfold t_is in G. tauto.
+    repeat match goal with E : _ && _ = true |- _ => apply andb_true_iff in E as [? ?] end;
+    repeat match goal with E : negb _ = true |- _ => apply negb_true_iff in E end;
+    try (split; [intro K; congruence|]); try (split; [|intro K; congruence]); auto.
+  - (* Succeeded marked *)
+    intros _. destruct G as [G|G]; [|unfold t_is in G; congruence].
+    apply not_completed_parts in G. unfold t_is in G. tauto.
+  - (* Running marked: the trial is not MetricsUnavailable *)
+    intro K. exfalso. destruct G as [G|G]; [apply not_completed_parts in G; unfold t_is in G; destruct G as (_&_&_&_&G); congruence|unfold t_is in G; congruence].
 Qed.
 
 Lemma plan_trial_main_good w t dberr n cs o ct rv onf :
@@ -412,7 +414,7 @@ Lemma plan_trial_main_good w t dberr n cs o ct rv onf :
 Proof.
   unfold plan_trial_main.
   assert (ES : forall o', t_is t TEarlyStopped = true -> tgood t -> good_conds (t_conds t) o').
-  { intros o' E T S. destruct (T S) as (_&_&E'&_). unfold t_is in E. congruence. }
+  { intros o' E [T1 T2]. split; [|exact T2]. intro S. destruct (T1 S) as (_&_&E'&_). unfold t_is in E. congruence. }
   destruct (find_job (t_name t) (w_jobs w)) as [j|].
   - destruct (t_completed t && negb (c_retain (w_cfg w))).
     + destruct (t_is t TEarlyStopped && negb (t_obs_available t)) eqn:E.
@@ -452,8 +454,7 @@ Proof.
   destruct (negb (t_deleting t) && negb (t_fin t)); [destruct H as [X|[]]; inversion X|].
   destruct (t_deleting t && t_fin t); [destruct H as [X|[X|[]]]; inversion X|].
   destruct (negb (t_is t TCreated)).
-  - apply in_trial_status_write in H. inversion H; subst. intros T S.
-    unfold mark in *. rewrite has_set in S. cbn in S. rewrite !has_set. cbn. now apply T.
+  - apply in_trial_status_write in H. inversion H; subst. intros [T1 T2]. unfold good_conds, mark. rewrite !has_set. cbn. split; assumption.
   - intro T. eapply plan_trial_main_good; eauto.
 Qed.
 
@@ -501,4 +502,85 @@ Proof.
     assert (C2 : e_completed st2 = true) by (unfold e_completed, e_is in *; now rewrite S2).
     rewrite C2 in H. apply in_status_write in H. inversion H; subst.
     unfold verdict_same. rewrite S2, S3. auto.
+Qed.
+
+(* ------------------------------------------------------------------ the status counters are those of the class list *)
+
+Definition status_wf (st : estatus) : Prop := es_counts st = counts_of (es_classes st).
+
+Lemma update_condition_classes cf mx now st reached : es_classes (update_condition cf mx now st reached) = es_classes st.
+Proof. unfold update_condition. repeat match goal with |- context [if ?c then _ else _] => destruct c end; reflexivity. Qed.
+
+Lemma update_status_classes cf mx now st ts :
+  es_classes (update_status cf mx now st ts) = map (fun t => (t_name t, classify t)) ts.
+Proof.
+  unfold update_status. destruct (scan_best _ _ _ _ _) as [best reached].
+  match goal with |- context [if ?c then _ else _] => destruct c end; [reflexivity|].
+  now rewrite update_condition_classes.
+Qed.
+
+Lemma plan_create_classes cf st ts sug add : es_classes (snd (plan_create cf st ts sug add)) = es_classes st.
+Proof. unfold plan_create. destruct sug as [s|]; [|reflexivity]. destruct (s_is _ _); reflexivity. Qed.
+
+Lemma plan_trials_classes cf mx st ts sug : es_classes (snd (plan_trials cf mx st ts sug)) = es_classes st.
+Proof.
+  unfold plan_trials. destruct (_ <? _); [reflexivity|]. destruct (_ <? _); [|reflexivity].
+  destruct (0 <? _); [apply plan_create_classes|reflexivity].
+Qed.
+
+Lemma plan_exp_completed_classes cf e sug ws st1 stop :
+  plan_exp_completed cf e sug = (ws, st1, stop) -> es_classes st1 = es_classes (e_st e) /\ es_counts st1 = es_counts (e_st e).
+Proof.
+  unfold plan_exp_completed. destruct (e_completed (e_st e)); [|now intros [= <- <- <-]].
+  destruct (restartable cf (e_st e) && _); now intros [= <- <- <-].
+Qed.
+
+(* every experiment status the controller plans to write either keeps the counters and class list of the status it
+   read, or carries the class list of the trials it listed together with the counters of that list *)
+Lemma plan_exp_status_classes w e st rv onf :
+  c_exp w = Some e -> In (WExpStatus st rv, onf) (plan_exp w) ->
+  (es_classes st = es_classes (e_st e) /\ es_counts st = es_counts (e_st e)) \/
+  (es_classes st = map (fun t => (t_name t, classify t)) (c_trials w) /\ es_counts st = counts_of (es_classes st)).
+Proof.
+  intros Hc H. unfold plan_exp in H. rewrite Hc in H.
+  destruct (negb (e_deleting e) && negb (e_fin e)); [destruct H as [X|[]]; inversion X|].
+  destruct (e_deleting e && e_fin e); [destruct H as [X|[]]; inversion X|].
+  destruct (plan_exp_completed (w_cfg w) e (c_sug w)) as [[ws1 st1] stop] eqn:PC.
+  destruct (plan_exp_completed_classes _ _ _ _ _ _ PC) as [K1 K2].
+  assert (N1 : ~ In (WExpStatus st rv, onf) ws1).
+  { intro I. revert PC. unfold plan_exp_completed.
+    destruct (e_completed (e_st e)); [|intros [= <- _ _]; destruct I].
+    assert (C : forall l, In (WExpStatus st rv, onf) l ->
+                (forall x, In x l -> exists s0 st0, x = (WSugStatus st0 (s_rv s0), Stop)) -> False).
+    { intros l Il Hl. destruct (Hl _ Il) as (s0&st0&X). inversion X. }
+    destruct (restartable (w_cfg w) (e_st e) && _); intros [= <- _ _].
+    - apply (C _ I). intros x Hx. apply in_app_or in Hx as [Hx|Hx].
+      + destruct (c_resume (w_cfg w)), (c_sug w) as [s|]; try (destruct Hx; fail);
+          (destruct (s_completed (s_st s) || s_restarting (s_st s)); [destruct Hx|destruct Hx as [<-|[]]; eauto]).
+      + destruct (c_resume (w_cfg w)), (c_sug w) as [s|]; try (destruct Hx; fail).
+        destruct (s_restarting (s_st s)); [destruct Hx|destruct Hx as [<-|[]]; eauto].
+    - apply (C _ I). intros x Hx.
+      destruct (c_resume (w_cfg w)), (c_sug w) as [s|]; try (destruct Hx; fail);
+        (destruct (s_completed (s_st s) || s_restarting (s_st s)); [destruct Hx|destruct Hx as [<-|[]]; eauto]). }
+  destruct stop; [contradiction|].
+  destruct (negb (e_is st1 ECreated)).
+  - apply in_app_or in H as [H|H]; [contradiction|]. apply in_status_write in H. inversion H; subst. left. cbn. auto.
+  - apply in_app_or in H as [H|H]; [contradiction|]. unfold plan_exp_reconcile in H.
+    set (st2 := match c_trials w with [] => st1 | _ => update_status (w_cfg w) (e_max e) (w_clock w) st1 (c_trials w) end) in *.
+    assert (S2 : (es_classes st2 = es_classes (e_st e) /\ es_counts st2 = es_counts (e_st e)) \/
+                 (es_classes st2 = map (fun t => (t_name t, classify t)) (c_trials w) /\ es_counts st2 = counts_of (es_classes st2))).
+    { unfold st2. destruct (c_trials w) as [|t0 ts'] eqn:Et; [left; auto|]. right.
+      rewrite update_status_classes, update_status_counts. auto. }
+    destruct (e_completed st2).
+    + apply in_status_write in H. inversion H; subst. exact S2.
+    + destruct (plan_trials (w_cfg w) (e_max e) st2 (c_trials w) (c_sug w)) as [ws2 st3] eqn:PT.
+      assert (E3 : es_classes st3 = es_classes st2 /\ es_counts st3 = es_counts st2).
+      { change st3 with (snd (ws2, st3)). rewrite <- PT. split; [apply plan_trials_classes|apply plan_trials_counts]. }
+      destruct E3 as [E3 E4].
+      apply in_app_or in H as [H|H].
+      * exfalso. assert (H' : In (WExpStatus st rv, onf) (fst (plan_trials (w_cfg w) (e_max e) st2 (c_trials w) (c_sug w)))) by now rewrite PT.
+        clear -H'. unfold plan_trials in H'. destruct (_ <? _); [destruct H' as [X|[]]; inversion X|].
+        destruct (_ <? _); [|destruct H']. destruct (0 <? _); [|destruct H'].
+        apply plan_create_shape in H' as [(_&X)|(s&_&[X|(n&X&_)])]; inversion X.
+      * apply in_status_write in H. inversion H; subst. rewrite E3, E4. exact S2.
 Qed.
